@@ -234,7 +234,22 @@ pub fn arbitrary_constants(rng: &mut Rng, spacing: u16) -> (u16, decode::AfConst
         4 => c.reduction_factor = 10_000,
         5 => c.tick_group_size = 0,
         6 => c.tick_group_size = spacing.saturating_add(1),
-        7 => c.tick_group_size = if spacing > 2 { spacing - 1 } else { 3 },
+        7 => {
+            // a group size below the spacing that does not divide it: the neighbour of the spacing, a random one, or one that
+            // divides a related quantity instead (the ticks of a whole tick array, twice the spacing, the spacing plus one)
+            let sp = spacing.max(1) as u32;
+            let non_divisors: Vec<u16> = (2..sp.min(4096)).filter(|g| sp % g != 0).map(|g| g as u16).collect();
+            let related: Vec<u16> = non_divisors.iter().copied().filter(|g| (88 * sp) % (*g as u32) == 0 || (2 * sp) % (*g as u32) == 0 || (sp + 1) % (*g as u32) == 0).collect();
+            c.tick_group_size = if non_divisors.is_empty() {
+                3
+            } else {
+                match rng.below(3) {
+                    0 => if spacing > 2 { spacing - 1 } else { 3 },
+                    1 if !related.is_empty() => *rng.pick(&related),
+                    _ => *rng.pick(&non_divisors),
+                }
+            };
+        }
         8 => c.major_swap_threshold_ticks = 0,
         9 => c.major_swap_threshold_ticks = ((88u32 * spacing as u32) + 1).min(65535) as u16,
         10 => {
